@@ -5,7 +5,7 @@ CONSTANTS
  Sizes = {1, 4}
  MaxLogs = 3
  MaxBytes = 7
- MaxRecs = 6
+ MaxRecs = 5
  MaxAdv = 2
  MaxRefused = 1
 INVARIANTS Conservation OrderPerConnKey RightChannel NoEmptyBatch NothingLeftAfterClose Bounded PipesOk
